@@ -13,7 +13,7 @@ from gym_gridverse.grid import Grid
 from gym_gridverse.grid_object import Floor
 
 from ..runner import Obligation
-from ..symx import SymInt, SymReal, sym_and, sym_or
+from ..symx import EngineError, SymInt, SymReal, sym_and, sym_or
 
 PROPERTY = 'C19'
 LEVEL = 'other'
@@ -106,7 +106,13 @@ class Fl:
     def __float__(self):
         raise NotImplementedError('abstract float handed to code outside the model')
 
-    __int__ = __trunc__ = __index__ = __float__
+    __index__ = __float__
+
+    def __trunc__(self):
+        return self.env.fresh_round(self, 'trunc')
+
+    def __int__(self):
+        return int(self.__trunc__())   # int() insists on a real int: concretised (forks over the possible values)
 
 
 class RayEnv:
@@ -133,8 +139,11 @@ class RayEnv:
             self.sx.define(sym_and(t2 + d2 >= 2 * r - 1, t2 - d2 <= 2 * r + 1))
         elif mode == 'floor':
             self.sx.define(sym_and(t2 + d2 >= 2 * r, t2 - d2 < 2 * r + 2))
-        else:
+        elif mode == 'ceil':
             self.sx.define(sym_and(t2 + d2 > 2 * r - 2, t2 - d2 <= 2 * r))
+        else:                    # towards zero
+            self.sx.define(sym_or(sym_and(t2 + d2 >= 0, t2 + d2 >= 2 * r, t2 - d2 < 2 * r + 2, r >= 0),
+                                  sym_and(t2 - d2 <= 0, t2 + d2 > 2 * r - 2, t2 - d2 <= 2 * r, r <= 0)))
         self.rounds.append(r)
         return r
 
@@ -188,12 +197,19 @@ def mk_ray(area, origin, quadrant, step=0.01):
         env = RayEnv(sx, sgn_s, sgn_c, cap)
         if not isinstance(env.s.t, SymReal) and not isinstance(env.c.t, SymReal):
             # replay of a counterexample: the REAL function, real floats, at the angle of the model's direction
+            # (the model's (s, c) need not lie exactly on the unit circle, so nearby angles and the angles of the real fan are tried too;
+            # only a malformed ray of the REAL function is reported, anything else is a non-reproducing counterexample)
             theta = _math.atan2(float(Fraction(env.s.t)), float(Fraction(env.c.t)))
             sx.note('theta', theta)
-            ray = RT.compute_ray(Position(oy, ox), A, radians=theta, step_size=step)
-            why = ray_ok(ray, (oy, ox), A)
-            if why:
-                sx.fail('ray-malformed-on-the-real-code', f'angle {theta!r}: {why}: {[(p.y, p.x) for p in ray]}')
+            cands = [theta] + [theta + k * 1e-3 for k in range(-25, 26) if k]
+            ys_ = np.linspace(A.ymin, A.ymax + 1, num=A.height + 1) - 0.5 - oy
+            xs_ = np.linspace(A.xmin, A.xmax + 1, num=A.width + 1) - 0.5 - ox
+            cands += [float(r) for r in np.arctan2(*np.meshgrid(ys_, xs_)).ravel()]
+            for th in cands:
+                ray = RT.compute_ray(Position(oy, ox), A, radians=th, step_size=step)
+                why = ray_ok(ray, (oy, ox), A)
+                if why:
+                    sx.fail('ray-malformed-on-the-real-code', f'angle {th!r}: {why}: {[(p.y, p.x) for p in ray]}')
             return
         i = int(sx.int('i', 0, cap))
         idx = [i, i + 1] if i < cap else [cap]
@@ -254,41 +270,47 @@ def stub_contract_ok(rad):
     return abs(s) <= 1 and abs(c) <= 1 and Fraction(abs(s)) + Fraction(abs(c)) >= 1 - EPS
 
 
-def side_fans(maxh, maxw, offsets, extra=()):
+def as_cells(rays):
+    return [[(p.y, p.x) for p in r] for r in rays]
+
+
+def side_fans(shapes, offsets, label):
+    """shapes: list of (h, w, origins or None)"""
     def f():
         bad, cases = [], 0
 
-        def viol(label, msg):
-            bad.append(dict(label=label, message=msg, inputs=dict(inputs={}, notes={})))
+        def viol(lab, msg):
+            bad.append(dict(label=lab, message=msg, inputs=dict(inputs={}, notes={})))
 
-        shapes = [(h, w, None) for h in range(1, maxh + 1) for w in range(1, maxw + 1)] + [(h, w, origins) for (h, w, origins) in extra]
         for (h, w, only) in shapes:
             for (dy, dx) in offsets:
+                if (dy, dx) != (0, 0) and h * w > 16:
+                    continue
                 A = Area((dy, dy + h - 1), (dx, dx + w - 1))
-                origins = [(dy + y, dx + x) for y in range(h) for x in range(w)] if only is None else [(dy + y, dx + x) for (y, x) in only]
-                for origin in origins:
+                cells = {(p.y, p.x) for p in A.positions()}
+                origins = [(y, x) for y in range(h) for x in range(w)] if only is None else only
+                for (y, x) in origins:
                     if len(bad) >= 5:
                         break
+                    origin = (dy + y, dx + x)
                     P = Position(*origin)
-                    for fname in ('compute_rays_fancy', 'compute_rays'):
-                        if fname == 'compute_rays' and (h > 7 or w > 7 or (dy, dx) != offsets[0]):
-                            continue
+                    fans = ['compute_rays_fancy'] + (['compute_rays'] if (h * w <= 9 and (dy, dx) == (0, 0)) or (h, w, y, x) == (7, 7, 6, 3) else [])
+                    for fname in fans:
                         cases += 1
+                        cached = getattr(RT, 'cached_' + fname)(P, A)
                         fan = getattr(RT, fname)(P, A)
                         for ray in fan:
                             why = ray_ok(ray, origin, A)
                             if why:
                                 viol('ray-of-the-fan-malformed', f'{fname} area {A} origin {origin}: {why}: {[(p.y, p.x) for p in ray]}')
                                 break
-                        reached = {(p.y, p.x) for ray in fan for p in ray}
-                        if fname == 'compute_rays_fancy' and reached != {(p.y, p.x) for p in A.positions()}:
-                            missing = sorted({(p.y, p.x) for p in A.positions()} - reached)
-                            viol('fan-does-not-reach-every-cell', f'area {A} origin {origin}: cells {missing[:6]} reached by no ray')
-                        again = getattr(RT, fname)(P, A)
-                        cached = getattr(RT, 'cached_' + fname)(P, A)
-                        cached2 = getattr(RT, 'cached_' + fname)(P, A)
-                        as_cells = lambda rays: [[(p.y, p.x) for p in r] for r in rays]
-                        if not (as_cells(fan) == as_cells(again) == as_cells(cached) == as_cells(cached2)):
+                        reached = {c for ray in as_cells(fan) for c in ray}
+                        if fname == 'compute_rays_fancy' and reached != cells:
+                            viol('fan-does-not-reach-every-cell', f'area {A} origin {origin}: cells {sorted(cells - reached)[:6]} reached by no ray')
+                        same = as_cells(fan) == as_cells(cached) == as_cells(getattr(RT, 'cached_' + fname)(P, A))
+                        if same and h * w <= 9:
+                            same = as_cells(getattr(RT, fname)(P, A)) == as_cells(fan)
+                        if not same:
                             viol('ray-computation-not-deterministic-or-changed-by-caching', f'{fname} area {A} origin {origin}')
                     if (dy, dx) == (0, 0):
                         cases += 1
@@ -305,13 +327,33 @@ def side_fans(maxh, maxw, offsets, extra=()):
             if not stub_contract_ok(deg * _math.pi / 180.0):
                 viol('stub-contract-of-sin-cos-violated (harness assumption)', f'{deg} degrees')
         return dict(cases=cases, violations=bad[:5],
-                    detail=f'every ray of every fan (fancy: all areas up to {maxh}x{maxw} at offsets {offsets} x all origins; 1-degree fan up to 7x7): starts at origin, inside, '
-                           f'no repeats, adjacent steps, ends on border; fancy fan reaches every cell; raytracing on an all-Floor grid is all-visible; '
-                           f'fresh == fresh == cached == cached again; sin/cos stub contract holds on every fan angle')
+                    detail=f'{label}: every ray of every fancy fan (all origins; offsets {offsets} for areas of at most 16 cells) and of the 1-degree fan (areas of at most 9 cells, '
+                           f'7x7 from (6,3)): starts at origin, inside, no repeats, adjacent steps, ends on border; the fancy fan reaches every cell; raytracing on an '
+                           f'all-Floor grid is all-visible; fresh == cached == cached again (== fresh again on small areas); sin/cos stub contract holds on every fan angle')
     return f
 
 
 QUADRANTS = [(1, 1), (1, -1), (-1, 1), (-1, -1)]
+
+
+def steps_in_use():
+    """the step sizes the fan functions actually hand to compute_ray (read off the real call sites by running them once)"""
+    seen = set()
+    real = RT.compute_ray
+
+    def rec(position, area, **kw):
+        seen.add(kw.get('step_size'))
+        return real(position, area, **kw)
+
+    RT.compute_ray = rec
+    try:
+        RT.compute_rays_fancy(Position(0, 0), Area((0, 1), (0, 1)))
+        RT.compute_rays(Position(0, 0), Area((0, 1), (0, 1)))
+    finally:
+        RT.compute_ray = real
+    if not seen or any(not isinstance(v, (int, float)) or not v > 0 for v in seen):
+        raise EngineError(f'cannot read the step sizes of the fan functions: {seen!r}')
+    return sorted(seen)
 
 
 def obligations(tier):
@@ -331,12 +373,15 @@ def obligations(tier):
         todo += [((0, 8), (0, 8), o) for o in [(0, 0), (8, 8), (4, 4), (8, 4)]]
         todo += [((0, 3), (0, 6), o) for o in [(3, 3), (0, 0), (3, 6)]] + [((0, 6), (0, 3), o) for o in [(6, 1), (0, 3)]]
         todo += [((-6, 0), (-3, 3), (0, 0))]
-    for (ys, xs, o) in todo:
-        for qd in QUADRANTS:
-            name = f'ray-area[{ys[0]}..{ys[1]}]x[{xs[0]}..{xs[1]}]-origin{o[0]},{o[1]}-dir{"+" if qd[0] > 0 else "-"}{"+" if qd[1] > 0 else "-"}'
-            obs.append(Obligation(name, mk_ray((ys, xs), o, qd), dict(area=[list(ys), list(xs)], origin=list(o), sign_sin=qd[0], sign_cos=qd[1], step_size=0.01)))
-    if q:
-        obs.append(Obligation('side-fans', side_fans(7, 7, [(0, 0), (-3, -2)]), kind='concrete'))
-    else:
-        obs.append(Obligation('side-fans', side_fans(9, 9, [(0, 0), (-3, -2)], extra=[(13, 13, [(0, 0), (12, 12), (6, 6), (12, 6)])]), kind='concrete'))
+    for step in steps_in_use():
+        for (ys, xs, o) in todo:
+            for qd in QUADRANTS:
+                name = f'ray-area[{ys[0]}..{ys[1]}]x[{xs[0]}..{xs[1]}]-origin{o[0]},{o[1]}-dir{"+" if qd[0] > 0 else "-"}{"+" if qd[1] > 0 else "-"}' + ('' if step == 0.01 else f'-step{step}')
+                obs.append(Obligation(name, mk_ray((ys, xs), o, qd, step), dict(area=[list(ys), list(xs)], origin=list(o), sign_sin=qd[0], sign_cos=qd[1], step_size=step,
+                                                                              samples=sample_bound(Area(ys, xs), o, step))))
+    top = 7 if q else 9
+    for h in range(1, top + 1):
+        obs.append(Obligation(f'side-fans-height{h}', side_fans([(h, w, None) for w in range(1, top + 1)], [(0, 0), (-3, -2)], f'areas {h}x1..{h}x{top}'), kind='concrete'))
+    if not q:
+        obs.append(Obligation('side-fans-13x13', side_fans([(13, 13, [(0, 0), (12, 12), (6, 6), (12, 6)])], [(0, 0)], 'area 13x13 corners, centre, bottom centre'), kind='concrete'))
     return obs
